@@ -46,9 +46,35 @@ def impl_array(a, dt, trap, dtype=float):
 
 def impl_object(a, dt, dtype=float):
     import eqsig
-    s = eqsig.AccSignal(np.array(a, dtype=float).astype(dtype), dt)
+    src = np.array(a, dtype=float).astype(dtype)
+    s = eqsig.AccSignal(src, dt)
     out = np.array(s.velocity, dtype=float), np.array(s.displacement, dtype=float), [s.pga, s.pgv, s.pgd]
+    # the caller re-uses the array it constructed the object from: the object's record, and with it the series and peaks
+    # that must satisfy the increment identities with respect to that record, stay what they were
+    src *= -2
+    src += 3
+    again = np.array(s.velocity, dtype=float), np.array(s.displacement, dtype=float), [s.pga, s.pgv, s.pgd]
+    if not np.array_equal(np.array(s.values, dtype=float), np.array(a, dtype=float)):
+        raise RuntimeError('RecordChangedUnderObject: writing into the array the AccSignal was constructed from changed the object\'s '
+                           'record (velocity/displacement/peaks are those of the old record)')
+    if not (np.array_equal(out[0], again[0]) and np.array_equal(out[1], again[1]) and out[2] == again[2]):
+        raise RuntimeError('NotRepeatable: velocity/displacement/peaks changed between two reads with no operation on the object')
     s.generate_displacement_and_velocity_series(trap=False)     # must leave the record itself untouched
+    if not np.array_equal(np.array(s.values, dtype=float), np.array(a, dtype=float)):
+        raise RuntimeError('InputMutated: generate_displacement_and_velocity_series(trap=False) changed the object\'s record')
+    return out
+
+
+def impl_object_rect(a, dt, dtype=float):
+    """trapezoid integration switched off at object level, on a new object: the series the object then reports (and the
+    peaks taken from them) are the rectangle-rule ones"""
+    import eqsig
+    s = eqsig.AccSignal(np.array(a, dtype=float).astype(dtype), dt)
+    s.generate_displacement_and_velocity_series(trap=False)
+    out = np.array(s.velocity, dtype=float), np.array(s.displacement, dtype=float), [s.pga, s.pgv, s.pgd]
+    again = np.array(s.velocity, dtype=float), np.array(s.displacement, dtype=float), [s.pga, s.pgv, s.pgd]
+    if not (np.array_equal(out[0], again[0]) and np.array_equal(out[1], again[1]) and out[2] == again[2]):
+        raise RuntimeError('NotRepeatable: velocity/displacement/peaks changed between two reads with no operation on the object')
     if not np.array_equal(np.array(s.values, dtype=float), np.array(a, dtype=float)):
         raise RuntimeError('InputMutated: generate_displacement_and_velocity_series(trap=False) changed the object\'s record')
     return out
@@ -93,8 +119,12 @@ def gen(rng, tier):
                 a, r = r[3], r[:3]          # the model is given the object's current record
         elif k % 3 == 2:
             dty = [float, np.int64][(k // 3) % 2]
-            r = guarded(impl_object, a, dt, dty)
-            site, trap = 'AccSignal.velocity/displacement/pga/pgv/pgd' + ('' if dty is float else '[int record]'), True
+            if (k // 6) % 3 == 1:
+                r = guarded(impl_object_rect, a, dt, dty)
+                site, trap = 'AccSignal.generate_displacement_and_velocity_series(trap=False); velocity/displacement/pga/pgv/pgd' + ('' if dty is float else '[int record]'), False
+            else:
+                r = guarded(impl_object, a, dt, dty)
+                site, trap = 'AccSignal.velocity/displacement/pga/pgv/pgd' + ('' if dty is float else '[int record]'), True
         else:
             trap = (k % 3 == 0)
             dty = [float, float, np.int64, np.float32, list, tuple][(k // 3) % 6]
